@@ -225,3 +225,80 @@ for k, v in B.items():
     p = os.path.join(V, "benign", k, "meta.json")
     if os.path.exists(p):
         m = json.load(open(p)); m["summary"] = v; json.dump(m, open(p, "w"), indent=1)
+M5 = {
+ "C01-r5.1": ("PessimisticLock::LockS announces with fetch_add and withdraws with fetch_sub, UnlockX becomes fetch_xor; the untouched DowngradeToSIX still stores the whole word", "a reader between its failing fetch_add and its fetch_sub while the writer downgrades, a second reader gets S, the late fetch_sub erases its count, UpgradeToX succeeds with the reader inside"),
+ "C01-r5.2": ("OptGuard::TryLockS/SIX/X folded into one helper that sets bits with `| kLockBits`; kSLock is a counter unit, so TryLockS counts only when the sharer count is even", "an odd number of S grants held, TryLockS succeeds without changing the word and releases: the first sharer is unrecorded, LockX is granted"),
+ "C02-r5.1": ("OptimisticLock::XGuard old_ver_/new_ver_ widened to uint64_t (no wrap at 2^32)", "an exclusive section starting at version 2^32-1: the carry lands in the shared counter, later X requests wait for ever"),
+ "C02-r5.2": ("PessimisticLock::LockS: load pre-check, one fetch_add, roll back with fetch_sub; the untouched UnlockX/DowngradeToSIX blind stores wipe the provisional increment", "writer's CAS between the reader's load and fetch_add, writer's release store before the reader's fetch_sub: word becomes all ones"),
+ "C03-r5.1": ("SIXGuard caches the lock version (new GetVersion()), UpgradeToX builds the X guard from the cache; the untouched move assignment copies only dest_", "a SIX guard that got its grant by move assignment, then UpgradeToX: the section publishes stale+1, possibly the current version again"),
+ "C03-r5.2": ("OptGuard::TryLockS joins existing sharers with an unconditional fetch_add instead of the CAS", "the last other reader releases and a writer takes X between the load and the fetch_add"),
+ "C04-r5.1": ("ForwardGlobalEpoch scans only the first scan_limit_ slots; the limit is shrunk by CAS when trailing owners have exited", "a thread re-using an exited thread's ID registers inside the expired trailing part between the scan and the shrinking CAS"),
+ "C04-r5.2": ("CreateEpochGuard caches (manager address, slot) in thread_local variables and skips the heartbeat check", "a manager destroyed and a new one constructed at the same address while the thread lives: its heartbeat is never installed"),
+ "C05-r5.1": ("~HeartBeater publishes the released ID as a hint, GetHeartBeater takes the hint with a plain store(true)", "a thread already probing claims the freed slot before the hint is published; the next thread takes the hint: two owners"),
+ "C05-r5.2": ("reservation array packed into 64-bit bitmap words; the release mask is computed in 32-bit unsigned", "more than 32 IDs: releasing an ID below 32 also clears bits 32..63 of the word; later threads get IDs of running threads"),
+ "C06-r5.1": ("both binary searches folded into component::SearchBin with positions in IntType", "32-bit IntType and more than 2^31 (2^30) bins: the midpoint wraps, operator() never returns or throws out_of_range"),
+ "C06-r5.2": ("ApproxZipfDistribution::GetCDF computes GetPowerSum(id+1)*coef+base with precomputed constants instead of GetHarmonicNum(id+1)/denom_", "about 4% of (n, alpha) pairs: GetCDF(last) = 1-2^-52 and an engine output in the top 2^11: returns max+1"),
+ "C07-r5.1": ("PessimisticLock guard move assignments return early when dest_ == rhs.dest_ (meant as self-assignment test)", "two owning SGuards of the same lock, a = std::move(b): nothing released, b still owns"),
+ "C07-r5.2": ("PrepareRead back-off path: strong CAS, a failed CAS accepted unless the refreshed word shows X; 'I hold S' decided from the last observed word", "reader in the back-off path loads a free word, a writer completes a whole X cycle before its CAS: owning guard without a grant"),
+ "C08-r5.1": ("MCSLock::LockX: uncontended CAS fast path; the tail exchange of the contended path goes from acquire to release", "two S holders, one unlocks, a writer queues, the other unlocks: the first reader's section and the writer's are unordered"),
+ "C08-r5.2": ("CompositeGuard move constructor = default (source keeps has_lock_)", "PrepareRead took its fallback S lock, the guard is move-constructed and the source destroyed while the target is in use"),
+ "C09-r5.1": ("guard move constructors delegate to the ordinary constructors; XGuard's resets new_ver_ to old_ver_+1", "LockX, SetVersion(v), move-construct the guard, release: publishes old+1 instead of v"),
+ "C09-r5.2": ("SIXGuard::GetVersion feature: ver_ cached, UpgradeToX uses it; move assignment leaves it stale", "move assignment into an existing SIX guard, then UpgradeToX: XGuard::GetVersion stale, release publishes stale+1"),
+ "C10-r5.1": ("OptimisticLock::SIXGuard::UpgradeToX: read-only wait for the shared counter, then unconditional fetch_xor(kXMask)", "a LockS/TryLockS CAS lands between the last load and the fetch_xor"),
+ "C10-r5.2": ("MCSLock wait loops factored into helpers; the second-stage wait of LockS gets kXLock instead of kXMask", "A holds SIX, R queues S behind it, W enqueues X/SIX: R is granted while A holds SIX, A's UpgradeToX returns with R inside"),
+ "C11-r5.1": ("MCSLock pointer field widened to 52 bits, the shared counter shrinks to 10 bits", "exactly 1024 LockS requests registered on one tail node: the counter wraps into the SIX bit"),
+ "C11-r5.2": ("MCSLock::UnlockX tail branch hands over with fetch_xor(kXLock) and compensates with a second fetch_xor if the tail had moved", "holder with a queued sharer, a second writer becomes tail between the load and the fetch_xor, a late LockS arrives before the compensation (4 threads, 3 preemptions)"),
+ "C12-r5.1": ("MCSLock::LockS fetches its node lazily whenever the 'lock is free' branch runs", "lock word free -> held -> free between consecutive CAS attempts of one LockS: the first node leaks"),
+ "C12-r5.2": ("one-slot tls_node_ replaced by an uncapped thread-local free list", "asymmetric reclamation (opener/joiner release order) or one thread holding several locks: live nodes grow without bound"),
+ "C13-r5.1": ("PrepareRead slow path no longer retries a failed CAS, only re-checks X on the refreshed word", "a second writer completes a whole X cycle between the reader's load and its CAS: owning guard without a grant, counter underflow at release"),
+ "C13-r5.2": ("CompositeGuard move assignment takes over rhs first, then releases through the new dest_", "an owning guard overwritten by a guard of a different lock: old grant never released, UnlockS on the wrong lock"),
+ "C14-r5.1": ("the reservation flag is cleared by a custom deleter of the heartbeat shared_ptr, ~HeartBeater = default", "another thread holds a lock()ed heartbeat when the owner exits: the ID stays reserved for ever"),
+ "C14-r5.2": ("a thread that probed the whole table sleeps on a release counter (wait/notify); the counter is read after the scan", "a holder exits between the probe of its slot and the load of the counter: lost wake-up"),
+ "C15-r5.1": ("CollectProtectedEpochs takes heartbeat.lock() instead of testing expired()", "a thread exits while the coordinator holds the strong reference: heartbeat alive after exit and at ID reuse"),
+ "C15-r5.2": ("bitmap table with a 32-bit release mask (as C05-r5.2)", "more than 32 IDs, a low ID released: IDs 32..63 of the word handed out while their owners run"),
+ "C16-r5.1": ("re-entrant guards: nesting counter in Epoch; EpochGuard move assignment skips LeaveEpoch when both point at the same Epoch", "guard = manager.CreateEpochGuard() on a live guard leaks a nesting level: the epoch stays pinned after every guard is gone"),
+ "C16-r5.2": ("EpochManager recycles ProtectedNodes; Reuse resets only the header, CollectProtectedEpochs only appends", "at least 1024 forwards on one manager: published lists contain stale epochs, min falls back"),
+ "C17-r5.1": ("CollectProtectedEpochs copies through partial_sort_copy into a destination of kMaxThreadNum entries", "kMaxThreadNum-1 or more threads inside guards during one forward: the oldest protected epochs are dropped, nodes freed under live guards"),
+ "C17-r5.2": ("atomic `registered` flag per slot: CreateEpochGuard registers on !registered, only the coordinator's scan clears it", "a new thread with the ID of an exited one takes a guard before any forward: never registered, its list node is freed two boundaries later"),
+ "C18-r5.1": ("GetHarmonicNum keeps the upper Chlebus term of the previous call in thread_locals keyed by position only", "two approximate distributions with different alpha scanned in lockstep, or an (n+1)-bin object constructed right after scanning an n-bin one"),
+ "C18-r5.2": ("trapezoid count capped at 10000 (skip = max(100, n/10000))", "more than 10^6 bins and alpha around or above 1: first 100 bins drift by up to 0.06"),
+ "C19-r5.1": ("range check through GetBinNum computing the width in signed 64 bits", "inverted 64-bit ranges with min - max > 2^63 are accepted"),
+ "C19-r5.2": ("operator() caches the first seven search levels in a thread_local table keyed by `this`", "a different distribution later occupies the same storage (assignment, emplace, stack slot reuse)"),
+ "C20-r5.1": ("RemoveOutDatedLists parks one unlinked node in a spare slot for reuse", "a second node retires before the next boundary: the first is leaked for good, also past the destructor"),
+ "C20-r5.2": ("tls_end_ high-water mark of used slots updated by check-then-store", "two threads register concurrently (hi loads, lo loads, hi stores, lo stores): the higher slot is never scanned"),
+}
+for sid, (summ, needs) in M5.items():
+    p = os.path.join(V, "seeded", sid, "meta.json")
+    if not os.path.exists(p):
+        print("missing", sid); continue
+    m = json.load(open(p))
+    m["summary"] = summ
+    m["needs"] = needs
+    m["breaks_property"] = m.get("target_property")
+    m["round"] = 5
+    m["what_was_run"] = ("seeded/verify.sh of the sub-agent re-run by the framework author in a scratch worktree (see verify_result.txt): repository test suite with the change, "
+                         "demonstration with and without the change; then tools/seedmatrix.py (see results.json): patch applied to a scratch worktree of /repo, checks run with VERIF_REPO pointing there, patch reverted")
+    json.dump(m, open(p, "w"), indent=1)
+print("round 5 ok")
+B5 = {
+"B8-1":"Pessimistic/OptimisticLock: lock words re-laid-out (pessimistic: X bit 0, SIX bit 1, counter bits 2..63; optimistic: X 32, SIX 33, counter 34..63), static_asserts",
+"B8-2":"Pessimistic/OptimisticLock: Lock*/UpgradeToX through one ReplaceWithBackoff helper that reuses the word a failed CAS returned; pessimistic starts from a 'free' guess (single CAS, no load)",
+"B8-3":"Pessimistic/OptimisticLock: memory orders strengthened only (acquire pre-check loads, acq_rel CASes and unlock RMWs, extra fences)",
+"B8-4":"Pessimistic/OptimisticLock: Unlock*, guard destructors and move assignments inline in the headers, constants as private static constexpr members, one VerifyVersion wait helper",
+"B9-1":"MCSLock: memory orders strengthened only (release node initialisation, acq_rel exchange/CAS/fetch_*, acquire loads)",
+"B9-2":"MCSLock: wait loops and enqueue/release/convert bodies factored into helpers and a template; goto removed",
+"B9-3":"MCSLock: lock word re-laid-out (S counter bits 63-49, SIX 48, X 47, pointer 46-0), static_asserts, design doc table updated",
+"B9-4":"MCSLock: uncontended fast paths (one strong CAS before the exchange / before the unlock loop), successor link with fetch_or",
+"B10-1":"IDManager: per-ID atomic_bool array becomes a 64-bit bitmap tested bit by bit (same probe order), fetch_or(acquire)/fetch_and(release)",
+"B10-2":"thread: memory orders strengthened only (Epoch enter/leave, global/min epoch, ID flags)",
+"B10-3":"EpochManager::CollectProtectedEpochs gathers in a local scratch vector, skips trivial duplicates and the sort for two entries, publishes with assign",
+"B10-4":"thread: Epoch/EpochGuard members moved into the headers, HeartBeater defined in the source file",
+"B11-1":"Zipf: both binary searches through one component::SearchBin template, exact-table construction through two file-local helpers (std::span)",
+"B11-2":"Zipf: every i^alpha computed once, CDF converted in place, trapezoid loop reuses the previous endpoint (bit-identical)",
+"B11-3":"Zipf: private members reordered hot/cold, alignas(64) group, initialiser lists follow the new order",
+"B11-4":"Zipf: std::log/expm1/pow with explicit casts, max < min rejected in the first member initialiser, assertions, defensive clear()",
+}
+for k, v in B5.items():
+    p = os.path.join(V, "benign", k, "meta.json")
+    if os.path.exists(p):
+        m = json.load(open(p)); m["summary"] = v; json.dump(m, open(p, "w"), indent=1)
